@@ -77,6 +77,7 @@ let trace_case ws =
     | ["ct"; n; ns; ds; glue] -> ECut (path n, ni ns, nopt ds, nopt glue)
     | ["rg"; n] -> ERegular (path n)
     | ["c"] -> ECommit
+    | ["cb"] -> ECommitBump
     | ["d"] -> EDrop
     | "s" :: rest -> EStale (ev rest)
     | _ -> failwith "bad event" in
